@@ -304,6 +304,37 @@ pub fn datetime(rng: &mut Rng, cfg: &Cfg) -> DateTime {
     DateTime::from(dt)
 }
 
+/// timestamps in periods in which the zone's own offset is not a whole number of minutes (local mean time
+/// before standard time; Amsterdam until 1937, Monrovia until 1972): the offset written in text has minute
+/// precision, the wall clock time is exact
+pub fn lmt_datetimes() -> Vec<DateTime> {
+    let zones = [
+        chrono_tz::Asia::Krasnoyarsk,
+        chrono_tz::America::New_York,
+        chrono_tz::Europe::Paris,
+        chrono_tz::Europe::Amsterdam,
+        chrono_tz::Asia::Kolkata,
+        chrono_tz::Australia::Sydney,
+        chrono_tz::Europe::Dublin,
+        chrono_tz::Africa::Monrovia,
+        chrono_tz::America::Caracas,
+        chrono_tz::Pacific::Honolulu,
+        chrono_tz::Asia::Tokyo,
+        chrono_tz::America::St_Johns,
+    ];
+    let mut out = Vec::new();
+    for tz in zones {
+        for secs in [-24_000_000_000i64, -10_000_000_017, -3_000_000_000, -2_500_000_001, -2_000_000_000, -1_500_000_000, -1_000_000_000, -100_000_000] {
+            for ns in [0u32, 500_000_000, 123_456_789] {
+                if let Some(dt) = tz.timestamp_opt(secs, ns).single() {
+                    out.push(DateTime::from(dt));
+                }
+            }
+        }
+    }
+    out
+}
+
 /// timestamps around the offset transitions of a few zones in one year: one second before/after
 /// the transition, and inside the repeated / after the skipped local hour
 pub fn dst_edge_datetimes() -> Vec<DateTime> {
